@@ -237,6 +237,23 @@ func (p *pkg) fieldLiteralIn(fn, field string) string {
 	return res
 }
 
+// fieldExprIn: the source text of the value given to `field:` in a composite literal inside package-level func fn
+func (p *pkg) fieldExprIn(fn, field string) string {
+	res := ""
+	ast.Inspect(p.funcDeclRecv(fn, "").Body, func(n ast.Node) bool {
+		if kv, ok := n.(*ast.KeyValueExpr); ok {
+			if id, ok := kv.Key.(*ast.Ident); ok && id.Name == field {
+				res = exprText(kv.Value)
+			}
+		}
+		return true
+	})
+	if res == "" {
+		die("no %s: in %s", field, fn)
+	}
+	return res
+}
+
 // stringsComparedWith: string literals compared (op) with an expression containing marker in method fn of recv
 func (p *pkg) stringsComparedWith(fn, marker string, op token.Token, recv string) []string {
 	var out []string
@@ -323,6 +340,41 @@ func (p *pkg) lastArgOfCallWith(fn, marker string) string {
 		die("no call with %q in %s", marker, fn)
 	}
 	return res
+}
+
+// boolArgOfCalls: for every call of `callee` (last selector or identifier name) inside method fn of
+// recv, the boolean literal passed at position idx; dies when an argument is not a literal.
+func (p *pkg) boolArgOfCalls(fn, recv, callee string, idx int) []bool {
+	var out []bool
+	ast.Inspect(p.funcDeclRecv(fn, recv).Body, func(n ast.Node) bool {
+		c, ok := n.(*ast.CallExpr)
+		if !ok {
+			return true
+		}
+		name := ""
+		switch f := c.Fun.(type) {
+		case *ast.Ident:
+			name = f.Name
+		case *ast.SelectorExpr:
+			name = f.Sel.Name
+		}
+		if name != callee {
+			return true
+		}
+		if idx >= len(c.Args) {
+			die("%s in %s has no argument %d", callee, fn, idx)
+		}
+		id, ok := c.Args[idx].(*ast.Ident)
+		if !ok || (id.Name != "true" && id.Name != "false") {
+			die("argument %d of %s in %s is not a boolean literal", idx, callee, fn)
+		}
+		out = append(out, id.Name == "true")
+		return true
+	})
+	if len(out) == 0 {
+		die("no call of %s in %s", callee, fn)
+	}
+	return out
 }
 
 // intsComparedWith: integer literals compared (op) with an expression whose source text contains `marker`, inside func fn.
@@ -714,6 +766,22 @@ func main() {
 			die("no keys listed in the LFSCONFIG section")
 		}
 		return "def docLfsconfigKeys : List Bytes := " + bytesList(keys)
+	})
+	// every reader of a repository-supplied configuration file (.lfsconfig in the working tree, the
+	// index or HEAD) marks its source OnlySafeKeys: the flag ParseConfigLines is called with
+	emit("lfsconfigReaderFlags", func() string {
+		gitp := safeLoad(filepath.Join(repo, "git"))
+		var fl []string
+		for _, fn := range []string{"FileSource", "RevisionSource"} {
+			for _, b := range gitp.boolArgOfCalls(fn, "Configuration", "ParseConfigLines", 1) {
+				fl = append(fl, fmt.Sprint(b))
+			}
+		}
+		// and ParseConfigLines hands the flag on unchanged
+		if v := gitp.fieldExprIn("ParseConfigLines", "OnlySafeKeys"); v != "onlySafeKeys" {
+			die("ParseConfigLines sets OnlySafeKeys to %q", v)
+		}
+		return "def lfsconfigReaderFlags : List Bool := [" + strings.Join(fl, ", ") + "]"
 	})
 	// ---- commands/command_track.go (C19)
 	emit("trackEscapeStrings", func() string { return "def trackEscapeStrings : List Bytes := " + bytesList(cmds.strs("trackEscapeStrings")) })
